@@ -625,6 +625,14 @@ pub fn mon_c13(
                 ("actual", short(obs.before.in_next, how)),
             ],
         ),
+        Bad::InShortBoth => (
+            "InsufficientInputBufferSize",
+            vec![("channel", 0.0), ("expected", obs.before.in_next as f64), ("actual", short(obs.before.in_next, 1))],
+        ),
+        Bad::OutShortBoth => (
+            "InsufficientOutputBufferSize",
+            vec![("channel", 0.0), ("expected", obs.before.out_next as f64), ("actual", short(obs.before.out_next, 1))],
+        ),
         Bad::MaskedInShort(_, c) => (
             "InsufficientInputBufferSize",
             vec![
@@ -663,11 +671,13 @@ pub fn mon_c13(
         Bad::OutShort(_, _) => "outshort",
         Bad::MaskedInShort(_, _) => "maskedinshort",
         Bad::MaskedOutShort(_, _) => "maskedoutshort",
+        Bad::InShortBoth => "inshortboth",
+        Bad::OutShortBoth => "outshortboth",
     };
     // an OutShort on a resampler whose next output is 0 frames is not malformed
     let vacuous = match bad {
-        Bad::OutShort(_, _) | Bad::MaskedOutShort(_, _) => obs.before.out_next == 0,
-        Bad::InShort(_, _) | Bad::MaskedInShort(_, _) | Bad::WrapInShort(_, _) => obs.before.in_next == 0,
+        Bad::OutShort(_, _) | Bad::MaskedOutShort(_, _) | Bad::OutShortBoth => obs.before.out_next == 0,
+        Bad::InShort(_, _) | Bad::MaskedInShort(_, _) | Bad::WrapInShort(_, _) | Bad::InShortBoth => obs.before.in_next == 0,
         _ => false,
     };
     if vacuous {
